@@ -319,17 +319,40 @@ fn prepare_event(case: &Value, out: &mut dyn Write) {
     writeln!(out, "{}", ev).ok();
 }
 
+/// a case with several sources ("srcs"): each is evaluated with the same configuration and logged
+/// with the exponents of the first one, so that the events of the group are directly comparable
 fn run_case(case: &Value, out: &mut dyn Write) {
+    if let Some(srcs) = case.get("srcs").and_then(|x| x.as_array()) {
+        let mut forced: Option<(i32, i32, f64)> = None;
+        for (i, src) in srcs.iter().enumerate() {
+            let mut sub = case.clone();
+            sub.as_object_mut().unwrap().remove("srcs");
+            sub["src"] = src.clone();
+            let tag = src.get("tag").and_then(|x| x.as_str()).map(|x| x.to_string()).unwrap_or(format!("src{}", i));
+            sub["runs"] = json!([{"tag": tag, "reps": src.get("evalreps").cloned().unwrap_or(json!(1))}]);
+            let r = run_case1(&sub, out, forced);
+            if forced.is_none() {
+                forced = r;
+            }
+        }
+    } else {
+        run_case1(case, out, None);
+    }
+}
+
+fn run_case1(case: &Value, out: &mut dyn Write, forced: Option<(i32, i32, f64)>) -> Option<(i32, i32, f64)> {
     if case.get("prepare_log").and_then(|x| x.as_bool()).unwrap_or(false) {
         prepare_event(case, out);
         if case.get("prepare_only").and_then(|x| x.as_bool()).unwrap_or(false) {
-            return;
+            return None;
         }
     }
     let id = case["case"].clone();
     let base_ev = |tag: &str| json!({"ev": "Eval", "case": id, "tag": tag});
     // ---- components
-    let text = if let Some(comps) = case["src"]["comps"].as_array() {
+    let text = if case["src"].get("lines").is_some() {
+        render_file(&case["src"])
+    } else if let Some(comps) = case["src"]["comps"].as_array() {
         let cs: Vec<AbsComp> = comps.iter().map(AbsComp::from_json).collect();
         render_comps(&cs, &[])
     } else if let Some(p) = case["src"]["file"].as_str() {
@@ -360,28 +383,28 @@ fn run_case(case: &Value, out: &mut dyn Write) {
         .map(|e| json!([e["ev"], e.get("carrier").cloned().unwrap_or(json!("-")), e["id"]]))
         .collect();
     if case.get("parse_only").and_then(|x| x.as_bool()).unwrap_or(false) {
-        return;
+        return None;
     }
     let base = match parsed {
         Outcome::Ok(c) => c,
         Outcome::Err(k, m) => {
             fail_all(case, out, fail("parse", k, &m));
-            return;
+            return None;
         }
         Outcome::Panic(m) => {
             fail_all(case, out, fail("parse", "Panic", &m));
-            return;
+            return None;
         }
     };
     let fac0 = match build_factors(&case["fac"]) {
         Outcome::Ok(f) => f,
         Outcome::Err(k, m) => {
             fail_all(case, out, fail("factors", k, &m));
-            return;
+            return None;
         }
         Outcome::Panic(m) => {
             fail_all(case, out, fail("factors", "Panic", &m));
-            return;
+            return None;
         }
     };
     let default_runs = vec![json!({"tag": "base"})];
@@ -435,8 +458,15 @@ fn run_case(case: &Value, out: &mut dyn Write) {
         let s = (sum_in / unit * maxf).max(1.0);
         preps.push(Prep { run: run.clone(), comps, fac, kexp_v, area_v, lm, s, unit, strip_panic });
     }
-    let s_case = preps.iter().fold(1.0f64, |m, p| m.max(p.s));
-    let p = exponent(s_case);
+    let mut s_case = preps.iter().fold(1.0f64, |m, p| m.max(p.s));
+    let mut p = exponent(s_case);
+    let mut pm_forced = None;
+    if let Some((fp, fpm, fs)) = forced {
+        p = fp;
+        pm_forced = Some(fpm);
+        s_case = fs;
+    }
+    let mut used_pm = 0;
     for pr in preps {
         let Prep { run, comps, fac, kexp_v, area_v, lm, s: _, unit, strip_panic } = pr;
         let tag = run["tag"].as_str().unwrap_or("base");
@@ -464,7 +494,8 @@ fn run_case(case: &Value, out: &mut dyn Write) {
         });
         let (fj, exact_f, _maxf) = factors_json(&fac);
         let s = s_case;
-        let pm = exponent(s / (area as f64).max(1e-9));
+        let pm = pm_forced.unwrap_or(exponent(s / (area as f64).max(1e-9)));
+        used_pm = pm;
         ev["N"] = json!(comps.data.first().map(|e| e.num_steps()).unwrap_or(0));
         ev["q"] = json!(q);
         ev["exact"] = json!(exact_c && exact_f);
@@ -476,7 +507,13 @@ fn run_case(case: &Value, out: &mut dyn Write) {
         ev["mag"] = json!((s * 10f64.powi(p)).ceil() as i64);
         ev["magm"] = json!((s / (area as f64).max(1e-9) * 10f64.powi(pm)).ceil() as i64);
         ev["idsched"] = Value::Array(ids_sched.clone());
-        // ---- the call
+        // ---- the call (a run may ask for repeated evaluations: each iterates the carriers in a fresh hash order)
+        let evalreps = run.get("reps").and_then(|x| x.as_u64()).unwrap_or(1).max(1);
+        for rep in 0..evalreps {
+        if evalreps > 1 {
+            ev["tag"] = json!(format!("{}#{}", tag, rep));
+            ev["rep"] = json!(rep);
+        }
         cteepbd::verif::start();
         let res = guarded(|| energy_performance(&comps, &fac, kexp, area, lm));
         let evs = cteepbd::verif::take();
@@ -533,7 +570,9 @@ fn run_case(case: &Value, out: &mut dyn Write) {
             Outcome::Panic(m) => ev["out"] = fail("eval", "Panic", &m),
         }
         writeln!(out, "{}", ev).ok();
+        }
     }
+    Some((p, used_pm, s_case))
 }
 
 fn main() {
